@@ -436,6 +436,14 @@ def m_option_map(I, m, argv, fr, dest, c):
     return SomeV(call_closure(I, argv[1], [o.fields[0]]))
 
 
+def m_option_map_or(I, m, argv, fr, dest, c):
+    """Option::map_or(default, f): None -> default, Some(v) -> f(v) (std semantics)"""
+    o = argv[0]
+    if o.vname == "None":
+        return argv[1]
+    return call_closure(I, argv[2], [o.fields[0]])
+
+
 def m_ilog2(I, m, argv, fr, dest, c):
     v = argv[0]
     w = v.size()
@@ -650,6 +658,7 @@ def container_models():
         (R(r"^<.* as Iterator>::map::<.*>$"), m_map),
         (R(r"^<.* as Iterator>::sum::<.*>$"), m_sum),
         (R(r"^Option::<.*>::map::<.*>$"), m_option_map),
+        (R(r"^Option::<.*>::map_or::<.*>$"), m_option_map_or),
         (R(r"^core::num::<impl (?P<t>[ui]\w+)>::ilog2$"), m_ilog2),
         (R(r"^core::(?P<t>f32|f64)::<impl f(?:32|64)>::from_(?P<e>le|be)_bytes$"), m_float_from_bytes),
         (R(r"^core::(?P<t>f32|f64)::<impl f(?:32|64)>::to_(?P<e>le|be)_bytes$"), m_float_to_bytes),
